@@ -460,6 +460,64 @@ def r5_polarity(prog, res):
                 {"enabled": verdict})
 
 
+def r7_filename_private(prog, res):
+    """Every symbol the parser creates keeps the pointer it was given as file name.  The name handed to PARSERrun must therefore be a
+    private copy (strdup / SCANstrdup), not a buffer that later look-ups overwrite (the EXPRESS_PATH scratch buffer `dir->full`):
+    otherwise all diagnostics of an earlier file are attributed to whatever file was looked up last."""
+    from engines import call_args
+    from nullness import reaches_unassigned
+    COPY = ("SCANstrdup", "strdup", "__strdup")
+
+    def core(n):
+        n = strip(n)
+        while n is not None and n["k"] == "Cast" and n.get("ch"):
+            n = strip(n["ch"][0])
+        return n
+
+    def is_copy(e, f, depth=0):
+        e = core(e)
+        if e is None:
+            return False
+        if e["k"] == "Call" and (e.get("fn") or "") in COPY:
+            return True
+        if e["k"] == "Member" and depth < 2:
+            # a field that this function fills with a copy
+            ap = expr_str(e)
+            ws = [y for y in f.walk() if y["k"] == "Assign" and expr_str(core(y["ch"][0])) == ap]
+            return bool(ws) and all(is_copy(y["ch"][1], f, depth + 1) for y in ws)
+        return False
+    n = 0
+    for f in prog.all_functions():
+        if f.component != "express" or f.cfg is None:
+            continue
+        for c in f.calls():
+            if (c.get("fn") or "") != "PARSERrun":
+                continue
+            n += 1
+            a0 = core(call_args(c)[0])
+            ok, why = False, "the argument `%s` is not a private copy" % expr_str(a0)
+            if is_copy(a0, f):
+                ok, why = True, "the argument is a fresh copy"
+            elif a0 is not None and a0["k"] == "Ref" and a0.get("dk") in ("local", "param"):
+                d = a0["d"]
+                defs = [y for y in f.walk() if y["k"] == "Assign" and core(y["ch"][0]) is not None and core(y["ch"][0]).get("d") == d]
+                # a definition from something that cannot be NULL (an array, a copy) is followed under the hypothesis d != NULL
+                bad = [y for y in defs if not is_copy(y["ch"][1], f) and
+                       reaches_unassigned(f, d, c, nonnull=True, start=f.cfg.locate(y))]
+                entry_reaches = a0.get("dk") == "param" and reaches_unassigned(f, d, c, nonnull=True)
+                if not bad and not entry_reaches and defs:
+                    ok, why = True, "`%s` is a private copy whenever it is not NULL" % a0["n"]
+                elif entry_reaches:
+                    why = "the caller's `%s` reaches the parser unchanged" % a0["n"]
+                elif bad:
+                    why = "`%s` = %s reaches the parser" % (a0["n"], expr_str(core(bad[0]["ch"][1])))
+            res.add("R7.file_name_is_a_private_copy", site_key(f, "R7", "PARSERrun-filename", {}), f.where(c), ok,
+                    "the file name given to the parser: %s" % why if ok else
+                    "%s: every symbol parsed from this file keeps that pointer, and the buffer is overwritten by the next schema look-up - the "
+                    "diagnostics of this file are then attributed to the file that was looked up last" % why)
+    res.floor("R7.file_name_is_a_private_copy", "calls of PARSERrun", n, 2)
+
+
 def r6_quoted_counts(prog, res):
     """A number quoted in a diagnostic that was counted by a loop is the count of the whole construct only if the loop cannot be
     left early: a `break` / `return` / `goto` inside the counting loop makes the message quote the position where the loop
@@ -511,6 +569,7 @@ def r6_quoted_counts(prog, res):
 
 
 def run(prog, res, tier):
+    r7_filename_private(prog, res)
     r6_quoted_counts(prog, res)
     t = table(prog, res)
     if t is None:
